@@ -97,7 +97,7 @@ func genConnScn(t *rapid.T, prop string, excl map[string]bool) connScn {
 		s.Closers = rapid.IntRange(0, 3).Draw(t, "closers")
 		s.Detach = rapid.IntRange(0, 7).Draw(t, "detach") == 0
 		s.Observer = rapid.Bool().Draw(t, "observer")
-		if !s.Client && s.Closers > 0 {
+		if !s.Client && (s.Closers > 0 || s.Detach) {
 			s.EarlyClose = rapid.IntRange(0, 2).Draw(t, "earlyClose") == 0
 		}
 	} else if prop == "C09" {
@@ -345,7 +345,7 @@ func runConn(t *rapid.T, s connScn, replay []vs.Step) *connOutcome {
 	}
 	if s.Detach {
 		w.s.Go("detacher", false, func() {
-			vs.WaitFor(-18, func() bool { return accepted })
+			vs.WaitFor(-18, func() bool { return accepted || (s.EarlyClose && prepared) })
 			vs.Yield(-19)
 			w.ev("user-detach")
 			func() {
